@@ -274,6 +274,17 @@ func (h *HistGen) upd0() J {
 		// tries to rewrite _id
 		return J{"setAll": []interface{}{[]interface{}{hx("_id"), encValue(h.someId())}}}
 	}
+	if h.G.pick(8) == 0 {
+		// the enclosing object of an indexable dotted path is replaced as a whole (n.a, n.b change with it)
+		obj := map[string]interface{}{}
+		if h.G.pick(4) != 0 {
+			obj["a"] = h.val()
+		}
+		if h.G.pick(2) == 0 {
+			obj["b"] = h.val()
+		}
+		return J{"setAll": []interface{}{[]interface{}{hx("n"), encValue(obj)}}}
+	}
 	// paths that are not prefix-related (Go iterates the update map in random order)
 	cands := [][]string{{"x"}, {"y"}, {"x", "y"}, {"xy", "n.a"}, {"n.b", "x"}, {"w"}, {"n"}}
 	ps := cands[h.G.pick(len(cands))]
